@@ -40,19 +40,19 @@ theorem iter_terminates (payload : Bytes) (res : IterResult) (h : iter payload =
   iter_never_out_of_fuel payload res h
 
 /-- CONNECTION_CLOSE whose reason is truncated to fit `max_len` still decodes to the same error code and
-    frame type and to exactly the announced prefix of the reason -/
+    frame type and to exactly the announced prefix of the reason (`connFixed` = the bytes the budget reserves) -/
 theorem close_truncation (withLen : Bool) (maxLen code : Nat) (ft : Option Nat) (reason : Bytes)
     (hc : code < 2^62) (hl : reason.length < 2^62) (hft : ∀ x, ft = some x → x < 2^62 ∧ x ≠ 0)
-    (hm : 3 + ((encB (ftRaw ft)).length + (encB reason.length).length) ≤ maxLen) (r : Bytes) :
+    (hm : connFixed (ftRaw ft) reason ≤ maxLen) (r : Bytes) :
     ∃ e, encodeWith withLen maxLen (.closeConn code ft reason) = some e ∧
       decodeOne (e ++ r) = .ok (.closeConn code ft (reason.take (connKeep maxLen (ftRaw ft) reason)), r) :=
   closeConn_trunc withLen maxLen code ft reason hc hl hft hm r
 
 /-- the same for APPLICATION_CLOSE -/
 theorem close_truncation_app (withLen : Bool) (maxLen code : Nat) (reason : Bytes)
-    (hc : code < 2^62) (hl : reason.length < 2^62) (hm : 3 + (encB reason.length).length ≤ maxLen) (r : Bytes) :
+    (hc : code < 2^62) (hl : reason.length < 2^62) (hm : appFixed code reason ≤ maxLen) (r : Bytes) :
     ∃ e, encodeWith withLen maxLen (.closeApp code reason) = some e ∧
-      decodeOne (e ++ r) = .ok (.closeApp code (reason.take (appKeep maxLen reason)), r) :=
+      decodeOne (e ++ r) = .ok (.closeApp code (reason.take (appKeep maxLen code reason)), r) :=
   closeApp_trunc withLen maxLen code reason hc hl hm r
 
 /-- for every frame kind with a `SIZE_BOUND` constant (generated from the source): the encoding is at most
@@ -62,40 +62,29 @@ theorem encoded_size_le_bound (f : Frame) (withLen : Bool) (maxLen : Nat) (e : B
     e.length ≤ b + payloadLen f :=
   Frame.encoded_size_le_bound f withLen maxLen e b hw he hb
 
-/-- "a close frame written under `max_len` occupies at most `max_len` bytes" -/
-def close_fits_max_len_statement : Prop :=
-  ∀ (withLen : Bool) (maxLen code : Nat) (reason e : Bytes), code < 2^62 → reason.length < 2^62 →
-    3 + (encB reason.length).length ≤ maxLen →
-    encodeWith withLen maxLen (.closeApp code reason) = some e → e.length ≤ maxLen
+/-- APPLICATION_CLOSE written under `max_len` occupies at most `max_len` bytes, for EVERY error code and
+    reason, whenever `max_len` is at least the SIZE_BOUND the caller checks (then the budget arithmetic cannot
+    underflow either: the encoder does not panic).  [Holds since `ApplicationClose::encode` budgets
+    `self.error_code.size()`; with the former constant `3` it failed for codes ≥ 2^14.] -/
+theorem close_fits_max_len (withLen : Bool) (maxLen code : Nat) (reason : Bytes)
+    (hc : code < 2^62) (hl : reason.length < 2^62) (hm : Gen.sizeBoundApplicationClose ≤ maxLen) :
+    ∃ e, encodeWith withLen maxLen (.closeApp code reason) = some e ∧ e.length ≤ maxLen := by
+  have hfix := closeApp_no_underflow maxLen code reason hc hl hm
+  have he := closeApp_enc withLen maxLen code reason hc hl hfix
+  exact ⟨_, he, closeApp_fits withLen maxLen code reason _ hc hl he⟩
 
-/-- proved part: the constant `3` in `ApplicationClose::encode` budgets one byte for the frame type and two
-    for the error code, so the statement holds for error codes below 2^14.  Missing: larger codes, see
-    `close_fits_max_len_counterexample`. -/
-theorem close_fits_max_len_partial (withLen : Bool) (maxLen code : Nat) (reason e : Bytes)
-    (hc : code < 2^14) (hl : reason.length < 2^62) (hm : 3 + (encB reason.length).length ≤ maxLen)
-    (he : encodeWith withLen maxLen (.closeApp code reason) = some e) : e.length ≤ maxLen :=
-  closeApp_fits withLen maxLen code reason e hc hl hm he
-
-/-- witness: application error code 2^30 (8-byte varint), 80-byte reason, `max_len` = 30 -/
-def closeOverrunWitness : Nat × Nat × Bytes := (30, 2^30, List.replicate 80 0)
-
-/-- the code as it is (and hence the faithful model) exceeds `max_len` by up to 6 bytes for an 8-byte
-    application error code: here 36 bytes are written under `max_len` = 30 -/
-theorem close_fits_max_len_counterexample : ¬ close_fits_max_len_statement := by
-  intro h
-  have hl : (List.replicate 80 (0 : Nat)).length < 2^62 := by simp
-  have hlen : (encB (List.replicate 80 (0 : Nat)).length).length = 2 := by
-    rw [encB_length_eq hl]; simp
-  have hm : 3 + (encB (List.replicate 80 (0 : Nat)).length).length ≤ 30 := by omega
-  obtain ⟨e, he, _⟩ := closeApp_trunc true 30 (2^30) (List.replicate 80 0) (by decide) hl hm []
-  have hle := h true 30 (2^30) (List.replicate 80 0) e (by decide) hl hm he
-  have hlength := closeApp_length true 30 (2^30) (List.replicate 80 0) e (by decide) hl hm he
-  have hc : (encB (2^30)).length = 8 := by rw [encB_length_eq (by decide)]; simp
-  have hk : appKeep 30 (List.replicate 80 (0 : Nat)) = 25 := by
-    unfold appKeep; rw [hlen]; simp
-  rw [hk, hc] at hlength
-  have : (encB 25).length = 1 := encB_len_one (by decide)
-  omega
+/-- CONNECTION_CLOSE likewise, for every transport error code the crate can construct (`errors!` table and
+    `Code::crypto`, maximum generated from the source; `Code` itself is a `u64` newtype, so this is an
+    invariant of construction, not of the type) -/
+theorem close_fits_max_len_conn (withLen : Bool) (maxLen code : Nat) (ft : Option Nat) (reason : Bytes)
+    (hc : code ≤ Gen.transportErrorCodeMax) (hl : reason.length < 2^62)
+    (hft : ∀ x, ft = some x → x < 2^62 ∧ x ≠ 0) (hm : Gen.sizeBoundConnectionClose ≤ maxLen) :
+    ∃ e, encodeWith withLen maxLen (.closeConn code ft reason) = some e ∧ e.length ≤ maxLen := by
+  have hc14 : code < 2^14 := by simp only [Gen.transportErrorCodeMax] at hc; omega
+  have hty := ftRaw_lt ft hft
+  have hfix := closeConn_no_underflow maxLen (ftRaw ft) reason hty hl hm
+  have he := closeConn_enc withLen maxLen code ft reason (by omega) hl hty hfix
+  exact ⟨_, he, closeConn_fits withLen maxLen code ft reason _ hc14 hl hft he⟩
 
 -- non-vacuity: concrete well-formed frames of the interesting kinds
 example : wellFormed (.stream 4 70000 true [1, 2, 3]) := by simp [wellFormed, V]
@@ -104,9 +93,13 @@ example : wellFormed (.ack 100 5 3 [(1, 2), (0, 0)] (some (1, 2, 3))) := by
 example : wellFormed (.newConnectionId 5 2 [1, 2, 3, 4, 5] (List.replicate 16 7)) := by simp [wellFormed, V]
 example : wellFormed (.closeConn 10 (some 6) [104, 105]) := by simp [wellFormed, V]
 example : sizeBound (.stream 4 70000 true [1, 2, 3]) = some 25 := rfl
-example : (3 : Nat) + ((encB (ftRaw (some 6))).length + (encB [104, 105].length).length) ≤ 8 := by
+example : connFixed (ftRaw (some 6)) [104, 105] ≤ 8 := by
   have h1 : (encB (ftRaw (some 6))).length = 1 := encB_len_one (by decide)
   have h2 : (encB ([104, 105] : Bytes).length).length = 1 := encB_len_one (by decide)
-  omega
+  unfold connFixed; omega
+-- the former overrun witness (code 2^30, 80-byte reason, max_len 30) now fits: 30 ≥ SIZE_BOUND = 17
+example : (2^30 : Nat) < 2^62 ∧ (List.replicate 80 (0 : Nat)).length < 2^62 ∧ Gen.sizeBoundApplicationClose ≤ 30 := by
+  refine ⟨by decide, by simp, by decide⟩
+example : (0x1ff : Nat) ≤ Gen.transportErrorCodeMax ∧ Gen.sizeBoundConnectionClose ≤ 26 := by decide
 
 end QM.Props.C10_frames
